@@ -78,7 +78,7 @@ theorem locationLessBody_leaf (self_ : Loc → Loc → Bool) {a b : Loc}
     simp only [Gen.locationLessBody, Gen.asLocationSlice, Gen.asContiguous, Gen.asRanged, Gen.betweenSpan,
       Gen.pointSpan, Gen.rangedSpan, Gen.ambiguousSpan, rangeCompare_eq, Loc.contigLess, Loc.span?,
       Loc.partialCount, and_self, or_self, if_true] <;>
-    (split <;> simp)
+    (split <;> first | (simp; done) | (simp only [decide_eq_decide]; omega))
 
 /-- a complement around `b` is stripped (when `a` is not a complement) -/
 theorem locationLessBody_compl_right (self_ : Loc → Loc → Bool) {a : Loc} (ha : ∀ x, a ≠ .compl x)
